@@ -100,6 +100,15 @@ def run(ctx):
     from pykdebugparser.trace_codes import from_trace_codes_text
     from pykdebugparser.pykdebugparser import PyKdebugParser
     rnd = random.Random(ctx.seed)
+    # generator-grain sessions on one object (spec/Sessions.tla): listings read alternately, abandoned half way, options
+    # edited in place between requests; every next() validated by Sessions_Val, design model-checked by Sessions_MC
+    from . import sessions
+    from . import c13 as _c13
+    sessions.model_check(ctx)
+    for i_ in range(2):
+        sessions.run_sessions(ctx, random.Random(ctx.seed * 2 + 77 + i_), 120 if ctx.quick else 2500, ('fkev', 'fkev', 'kev'),
+                              lambda r, world=None: _c13.gen_dump(r, world=world, orphans=0.0, samples=0.0),
+                              _c13.gen_cfg, 'ses%d_' % i_)
     ctx.expect_ok(run_tlc('CodeTable_MC', CFG % (3 if ctx.quick else 4), ctx.workdir, name='codetable', timeout=7200))
     # ---- (2) texts
     obs, texts = [], {}
